@@ -29,6 +29,7 @@ func init() {
 }
 
 func runC15(c *Ctx) {
+	defer debugKeyDiff(c.W)
 	ruleAllocTableWriters(c, "C15.1")
 	ruleDeleteAllocation(c, "C15.1d")
 	ruleReleaseCoverage(c, "C15.2")
@@ -612,7 +613,7 @@ func ruleCollectionRelease(c *Ctx, rule string, cl *ssa.Function, recv ssa.Value
 						}
 					}
 				}
-				for _, s2 := range b.Succs {
+				for _, s2 := range liveSuccs(b) {
 					walk(s2)
 				}
 			}
@@ -788,6 +789,12 @@ func (w *World) returnsCopyOf(fn *ssa.Function, f *types.Var) string {
 		case *ssa.Call:
 			if b, ok := x.Call.Value.(*ssa.Builtin); ok && b.Name() == "append" {
 				return classify(x.Call.Args[0], depth+1) // result aliases (at most) its first argument
+			}
+			// slices.Clone(field), slices.Collect(maps.Values(field)), slices.AppendSeq(fresh, …)
+			if src := w.freshCopyOf(x); src != nil {
+				if _, fl, ok := fieldLoad(stripIface(w.resolveLoad(src))); ok && fl == f {
+					return "copy"
+				}
 			}
 			return "the result of " + w.desc(x) + " (may alias the live slice)"
 		case *ssa.UnOp:
@@ -1044,7 +1051,7 @@ func ruleErrorPathRelease(c *Ctx, rule string) {
 
 func blockReaches(a, b *ssa.BasicBlock) bool {
 	seen := map[*ssa.BasicBlock]bool{}
-	stack := append([]*ssa.BasicBlock{}, a.Succs...)
+	stack := append([]*ssa.BasicBlock{}, liveSuccs(a)...)
 	for len(stack) > 0 {
 		x := stack[len(stack)-1]
 		stack = stack[:len(stack)-1]
@@ -1055,7 +1062,7 @@ func blockReaches(a, b *ssa.BasicBlock) bool {
 		if x == b {
 			return true
 		}
-		stack = append(stack, x.Succs...)
+		stack = append(stack, liveSuccs(x)...)
 	}
 	return false
 }
@@ -1075,7 +1082,7 @@ func pathsPass(from, to *ssa.BasicBlock, hit func(ssa.Instruction) bool) bool {
 		return true
 	}
 	seen := map[*ssa.BasicBlock]bool{}
-	stack := append([]*ssa.BasicBlock{}, from.Succs...)
+	stack := append([]*ssa.BasicBlock{}, liveSuccs(from)...)
 	for len(stack) > 0 {
 		b := stack[len(stack)-1]
 		stack = stack[:len(stack)-1]
@@ -1089,7 +1096,7 @@ func pathsPass(from, to *ssa.BasicBlock, hit func(ssa.Instruction) bool) bool {
 		if b == from {
 			continue // next iteration: a new acquisition
 		}
-		stack = append(stack, b.Succs...)
+		stack = append(stack, liveSuccs(b)...)
 	}
 	return true
 }
